@@ -155,7 +155,9 @@ fragment, the family range formatting prints for it **is** certified — for eve
 configuration; so `C13_replacement_carries_the_node` applies with no per-case check. -/
 theorem C13_fragment_replacement_is_certified (cfg : Config) (wd : String → Nat) (src : String) (root : ENode) (a b : Nat)
     (t : ANode) (off len : Nat) (d : Twin.Doc) (indent : Nat)
-    (h : formatRangeDoc cfg wd src root a b = .ok t off len d indent) (hx : isExpr t = true) (hq : inFrag t = true) :
+    (h : formatRangeDoc cfg wd src root a b = .ok t off len d indent) (hx : isExpr t = true) (hq : inFrag t = true)
+    (hmode : ∀ n off' mode, cover (trimRange src.toList (min a src.utf8ByteSize) (min b src.utf8ByteSize)).1
+        (min (trimRange src.toList (min a src.utf8ByteSize) (min b src.utf8ByteSize)).2 src.utf8ByteSize) root 0 .markup = some (n, off', mode) → mode ≠ .math) :
     rangeCertified cfg.reorder t d = true := by
   unfold formatRangeDoc at h
   simp only at h
@@ -176,7 +178,7 @@ theorem C13_fragment_replacement_is_certified (cfg : Config) (wd : String → Na
           simpa using hne
         rw [hk] at hrun
         simp only [Bool.false_eq_true, ↓reduceIte, hx'] at hrun
-        have hc := (knot_frag _ _).expr _ _ hx hq _ _ _ hrun
+        have hc := (knot_frag _ _).expr _ _ (hmode _ _ _ hcov) hx hq _ _ _ hrun
         obtain ⟨hg, hs⟩ := hc
         unfold rangeCertified Twin.Doc.toks Twin.Doc.cmts Twin.Doc.prose Twin.Doc.lits Twin.Doc.verbs
         rw [hg, hs]
